@@ -48,12 +48,16 @@ def check(tier, seed):
         if rs.get("oracle_err") is not None:
             rep.worst("worst_simulate_vs_superposition_K", rs["oracle_err"])
         wit = {"scenario": rec["cfg"], "final": {k: f[k] for k in ("nbh", "H", "hmin", "hmax", "tmax", "tmin", "cap", "flag")}, "resim": rs}
-        if rs["excess"] > TOL:
+        jump = rs.get("excess_1mm_above") is not None and rs["excess_1mm_above"] < 0 < rs["excess_1mm_below"] and rs["excess"] <= 2e-2
+        if rs["excess"] > TOL and jump:
+            rep.violate("root-on-a-jump-of-the-sizing-objective",
+                        f"{PC.method_of(rec)} {f['nbh']} bh: excess {rs['excess']:.3g} K at H={f['H']:.5f} m, {rs['excess_1mm_below']:.3g} K 1 mm below and {rs['excess_1mm_above']:.3g} K 1 mm above", wit)
+        elif rs["excess"] > TOL:
             rep.violate(f"returned-design-infeasible:{PC.method_of(rec)}",
                         f"{PC.method_of(rec)} {f['nbh']} bh at H={f['H']:.3f} m: re-simulated EFT [{rs['min']:.4f},{rs['max']:.4f}] vs limits [{f['tmin']},{f['tmax']}] (excess {rs['excess']:.4g} K)", wit)
         if rs.get("oracle_err") is not None and rs["oracle_err"] > 1e-6:
             rep.violate("simulate-disagrees-with-superposition", f"max |dT| = {rs['oracle_err']:.3g} K between simulate() and the superposition oracle", wit)
-        elif rs.get("oracle_excess") is not None and rs["oracle_excess"] > TOL + 1e-6:
+        elif rs.get("oracle_excess") is not None and rs["oracle_excess"] > TOL + 1e-6 and not jump:
             rep.violate(f"returned-design-infeasible-by-oracle:{PC.method_of(rec)}", f"oracle excess {rs['oracle_excess']:.4g} K", wit)
         signs = {e[2] > 0 for s in rec["searches"] for e in s["evals"]} | {e[2] > 0 for e in rec.get("rowwise_evals", [])}
         if len(signs) == 2 and rs["excess"] != 0.0:
